@@ -79,7 +79,12 @@ def main():
     t0 = time.time()
     allres = []
     for direction in ('inverse', 'forward'):
-        U = [sweep.assign(c, rng) for c in sweep.universe(direction)]
+        U = {}
+        for rep in range(4):        # several draws of the free choices (rows, dr, image height, call path)
+            for c in sweep.universe(direction):
+                c = sweep.assign(c, rng)
+                U.setdefault(sweep.cfgkey(c) + str(c['pass_dr']), c)
+        U = list(U.values())
         # group by (method, n) so that basis sets are computed once per process
         groups = {}
         for c in U:
